@@ -218,6 +218,27 @@ def run(F, R, tier):
                 _tail_values(F, arm["body"], vals)
                 R.ob("C01-f", "non-module media types become UnsupportedMediaType errors", "graph::ModuleErrorKind::UnsupportedMediaType" in ctors and all(ctor_of(x) == "std::result::Result::Err" for x in vals), "unsupported media types are not rejected", where(arm["body"]))
 
+    # types dependency: the in-source declaration wins, later sources only fill a gap
+    pj = F.body("graph::parse_js_module_from_module_info")
+    tw = [n for n in pj["_nodes"] if n["k"] == "Assign" and peel(n["l"]).get("field") == "maybe_types_dependency" and peel(n["l"]).get("adt") == "graph::JsModule"]
+    R.floor("C01-f writes to JsModule::maybe_types_dependency while parsing", len(tw), 4)
+    for w in tw:
+        earlier = [o for o in tw if o is not w and may_reach(F, o, w)]
+        if not earlier:
+            R.ob("C01-f", "first source of a module's types dependency", True, nontrivial=False)
+            continue
+        g = guards_at(F, w)
+        ok = any(x.kind == "cond" and x.pol and x.node.get("k") == "MethodCall" and x.node["name"] == "is_none" and peel_value(x.node["recv"]).get("field") == "maybe_types_dependency" for x in g) or \
+            any(x.kind == "cond" and not x.pol and mentions_field(x.node, "maybe_types_dependency") and any(y.get("name") == "is_some" for y in walk(x.node) if y.get("k") == "MethodCall") for x in g)
+        R.ob("C01-f", "a later source of the types dependency only fills a gap (does not overwrite an earlier one)", ok,
+             "`module.maybe_types_dependency = ..` can overwrite a types dependency already taken from the source text (not guarded by maybe_types_dependency.is_none()): the module would record the wrong type target", where(w))
+    aj = [n for n in pm["_nodes"] if n["k"] == "Assign" and ctor_of(peel(n["r"])) == "deno_media_type::MediaType::JavaScript"]
+    for a_ in aj:
+        g = guards_at(F, a_)
+        ok = any(x.kind == "cond" and x.pol and peel(x.node).get("field") == "is_root" for x in g) and any(x.kind == "cond" and x.pol and any(ctor_of(y) == "deno_media_type::MediaType::Unknown" for y in walk(x.node)) for x in g)
+        R.ob("C01-f", "an unknown media type is assumed to be JavaScript only for roots", ok,
+             "media_type = JavaScript under %s: non-root files of unknown type would become modules (pulling their imports into the graph) instead of UnsupportedMediaType errors" % [x.text()[:50] for x in g if x.kind == "cond"], where(a_))
+
     # ---------------- C01-d ------------------------------------------------
     writes = [n for n in F.all_nodes() if not n["_top"].get("derived") and n["k"] in ("Assign", "AssignOp") and peel(n["l"]).get("k") == "Field" and peel(n["l"])["field"] == "is_dynamic" and peel(n["l"]).get("adt") == "graph::Dependency"]
     R.floor("C01-d writes to Dependency::is_dynamic", len(writes), 2)
